@@ -127,6 +127,7 @@ impl Executor {
         h = fnv(h, &[sc.label.starts_with("sandbox:") as u8]);
         h = fnv(h, &sc.env.compile_layout_seed.to_le_bytes());
         h = fnv(h, &sc.env.id_skip_seed.to_le_bytes());
+        h = fnv(h, &engine::scope_prelude_hash().to_le_bytes());
         fnv(h, &sc.env.id_skip_max.to_le_bytes())
     }
 
